@@ -20,7 +20,7 @@ prop("C20",
           "reference model; (2) the limiter middleware driven by 2-12 goroutines (RemoteAddr and X-Forwarded-For), judged by the per-address "
           "header-counter multiset {1..k}, status and pass-on; (3) readers of Count/EndTime and /reqcount against a writer that restarts the "
           "interval, under the race detector; (4) the real server with a quota: 1-3 addresses (direct and forwarded) alternating between /livesim2 and "
-          "/vod share one quota and one counter. Non-trivial = a sequence crossing >=1 interval boundary with >=2 addresses and one over quota, "
+          "/vod share one quota and one counter; in the roll-over test (2-16 requests at once right after the interval elapsed, with and without a log file) every call returns within 15 s. Non-trivial = a sequence crossing >=1 interval boundary with >=2 addresses and one over quota, "
           "a concurrent middleware case with >=2 addresses exceeding the quota, or a race round; distinct by hash of the case.",
      race=True, quick=dict(shards=1, timeout=300), thorough=dict(shards=8, timeout=900, pct=1500),
      assumptions=COMMON + ["the interval restarts at the first request after it elapsed (documented by ResetTime/EndTime); the single instant "
@@ -46,7 +46,7 @@ prop("C01",
           "right after start, around loop wraps, many wraps, year-2026 and year-2090 distance, near number 2^32). For each case the segment is "
           "fetched by Number, by Time and by Timeline-Number and parsed independently: sequence number, per-fragment tfdt = VoD tfdt + w*L, full "
           "sample list incl. payload located through trun.data_offset, sidx, byte-identical thumbnails, TTML timestamps moved by round(offset), "
-          "identical bytes for all three addressing modes, and segment n+1 starting where n ends. Non-trivial = w>=1, tfdt>=2^32, a wrap pair, "
+          "identical bytes for all three addressing modes, and segment n+1 starting where n ends. A third of the generated layouts carries @codecs on the AdaptationSet instead of the Representation. Non-trivial = w>=1, tfdt>=2^32, a wrap pair, "
           "or start/startNumber != 0; distinct by hash of the case.",
      quick=dict(shards=2, timeout=300), thorough=dict(shards=16, timeout=1500, pct=400), assumptions=COMMON)
 
@@ -94,7 +94,7 @@ prop("C06",
           "with the same time/duration/number, no extra segments, per-period URLs return the same bytes, continuity signalled iff requested, "
           "incompatible values rejected. Optionally a stop time ahead of, shortly before or long before the instant (the static MPD must still "
           "consist of the tiles P<k> up to the one containing the stop time, mapped against the single-period MPD with the same stop time), "
-          "and continuous_1 written before or after periods_N. "
+          "and continuous_1 written before or after periods_N; a quarter of the cases carries generated subtitle sets (stpp, wvtt or both), which must be split like every other set. "
           "Non-trivial = an MPD with >= 2 periods of which >= 2 non-empty; distinct by hash of the case.",
      quick=dict(shards=2, timeout=400), thorough=dict(shards=16, timeout=1500, pct=400),
      assumptions=COMMON + ["start_ = 0 (the statement gives period starts in wall-clock terms); tsbd >= 2 segment durations"])
@@ -105,7 +105,7 @@ prop("C18",
           "bytes, truncation point, corrupted size field 0..7 / +-delta / 2^16..2^24), a read partition (1 byte at a time, small, mixed, all at "
           "once; last data with or without io.EOF), an initial buffer 0..64 KiB, and optionally a read error position or a failing callback. "
           "Oracle: a model parser written from the statement walks the boxes of the whole slice: concatenation = input, one callback per "
-          "complete mdat, trailing bytes at EOF, init flag = top-level moov header seen, Start = chunk offset; injected errors returned; "
+          "complete mdat, trailing bytes at EOF, init flag = top-level moov header seen, Start = chunk offset; injected errors returned (also a read error that is reported once, after which the reader would go on); "
           "termination within 20 s; bounded buffer growth for well-formed streams. Non-trivial = stream with >= 2 callbacks read with a read "
           "boundary inside a box header; distinct by hash of the case.",
      quick=dict(shards=2, timeout=300), thorough=dict(shards=16, timeout=1500, pct=600), fuzz=dict(target="FuzzC18", seconds=150, workers=16),
@@ -120,7 +120,7 @@ prop("C14",
           "without the parameter. (2) traffic: 1-3 BaseURL patterns of up to 4 u/d/s/h intervals of 1-20 s: StateAt vs an own cyclic expansion "
           "for every second of 3 cycles (near 0 and near 1.7e9), MPD offers one BaseURL per pattern, HTTP: up = plain answer, down = 404 "
           "(slow/hang sampled in the thorough tier with a one-sided elapsed-time bound). A third of the status-code cases carries an "
-          "availabilityTimeOffset from a quarter of a segment to more than two segments (the schedule is counted on the media timeline and must not move). "
+          "availabilityTimeOffset from a quarter of a segment to more than two segments (the schedule is counted on the media timeline and must not move); a third of the 2/6/8 s cases is requested in chunked low-latency mode. "
           "Non-trivial = a status-code sweep with >= 1 hit and "
           ">= 1 miss in a cycle k >= 1, or a traffic case with >= 2 BaseURLs; distinct by hash of the case.",
      quick=dict(shards=2, timeout=400), thorough=dict(shards=16, timeout=1500, pct=400), assumptions=COMMON)
@@ -131,7 +131,7 @@ prop("C13",
           "of the 33-bit PTS wrap at minute 1590, N in 1..3) covering 2-4 minutes: every scheduled splice has exactly one carrier whose closed "
           "interval contains splice-7 s, no unscheduled events; each emsg: id, presentation time, duration and an own parse of the "
           "splice_info_section (pts mod 2^33, break duration, out_of_network, CRC-32/MPEG-2). (2) HTTP: bundled/generated assets, all video "
-          "segments over 3 minutes with scte35_N: same oracle; no emsg in audio or subtitle (stpp) segments, bundled and generated; InbandEventStream on video only; N outside 1..3 rejected "
+          "segments over 3 minutes with scte35_N: same oracle, a third of the 2/6/8 s cases in chunked low-latency delivery; no emsg in audio or subtitle (stpp) segments, bundled and generated; InbandEventStream on video only; N outside 1..3 rejected "
           "with 4xx. Non-trivial = a case in which a segment spans a minute start or the announce instant equals a segment boundary.",
      quick=dict(shards=2, timeout=400), thorough=dict(shards=16, timeout=1500, pct=300), assumptions=COMMON)
 
@@ -142,7 +142,7 @@ prop("C12",
           "tfdt and duration in ms = video segment; cues extracted from the TTML / vttc samples: one cue per UTC second that intersects the "
           "segment (none for a second whose cue is over before the segment starts), begin = max(second, segment start), end within both "
           "readings of 'configured duration, clipped', text = UTC second + language + number, ordered, non-overlapping, inside; wvtt samples "
-          "tile the segment with vtte samples in the gaps; region; MPD: one text set per language mirroring the video timeline in ms, entry by entry with the same numbers. "
+          "tile the segment with vtte samples in the gaps; region; MPD: one text set per language mirroring the video timeline in ms, entry by entry with the same numbers; no cue of 0 ms (cue durations equal to the offset of the segment start into its second, +-1 ms, are drawn on purpose). "
           "Non-trivial = segment with >= 2 cues or a boundary off the whole second.",
      quick=dict(shards=2, timeout=400), thorough=dict(shards=16, timeout=1500, pct=400),
      assumptions=COMMON + ["assets whose video segment boundaries are not whole milliseconds are outside the domain (the subtitle track runs on a 1000 Hz timescale)"])
@@ -152,9 +152,9 @@ prop("C11",
           "periods, optional timeoffset_, optional stop_ between the two instants (MPD turning static), patch ttl 1..600 s) and t1 < t2 with t2-t1 from 1 ms (same piece), one segment, a few segments, a loop wrap, around the "
           "ttl and beyond it; the PatchLocation advertised by MPD(t1) is requested at t2: 425 iff publishTime unchanged, 410 beyond ttl(+10 s), "
           "otherwise the patch (originalPublishTime/publishTime/mpdId checked) is applied with an independent RFC 5261 applier and the result "
-          "compared canonically with MPD(t2); 410 is never accepted when t2-t1 itself is within the ttl. (2) library: MPDDiff on generated id-carrying MPD-like trees and an edit script (S appended / "
+          "compared canonically with MPD(t2); 410 is never accepted when t2-t1 itself is within the ttl; a quarter of the cases carries generated subtitle sets (stpp, wvtt or both kinds together). (2) library: MPDDiff on generated id-carrying MPD-like trees and an edit script (S appended / "
           "dropped at the start / repeat changed / inserted in the middle, attributes changed/added/removed, periods appended/dropped, "
-          "adaptation sets and representations added/removed, descriptor values changed, elements without id (PatchLocation, UTCTiming) removed / added / changing their schemeIdUri): old+patch == new; panics are violations, "
+          "adaptation sets and representations added/removed, descriptor values changed, elements without id (PatchLocation, UTCTiming) removed / added / changing their schemeIdUri, a leaf changing its text and gaining or losing an attribute at once): old+patch == new; panics are violations, "
           "rejections by the diff are counted. Non-trivial = a patch with >= 2 operations or one that both adds and removes.",
      quick=dict(shards=2, timeout=400), thorough=dict(shards=16, timeout=1500, pct=400), fuzz=dict(target="FuzzC11Trees", seconds=150, workers=16), assumptions=COMMON)
 
@@ -199,7 +199,7 @@ prop("C15",
           "SegmentTimeline MPD of every served asset (incl. layouts whose raw files have a hole at the first segment boundary) is contiguous "
           "on both servers and its listed segments are served. Generated layouts may also carry a second MPD that describes the same "
           "representations with fewer segments (the first MPD defines them), and an audio init segment whose trex default sample duration "
-          "disagrees with the tfhd defaults of the fragments. Non-trivial = a case with a damaged "
+          "disagrees with the tfhd defaults of the fragments, and @codecs on the AdaptationSet instead of the Representation. Non-trivial = a case with a damaged "
           "cache file or an inadmissible asset; distinct by hash of the case.",
      quick=dict(shards=4, timeout=400), thorough=dict(shards=16, timeout=1500, pct=500), assumptions=COMMON)
 
@@ -240,7 +240,7 @@ prop("C17",
           "(text: rescaled time), MPD file a complete document (also for a poller that reads it while the uploads go on), same contiguous range in every adaptation set, every listed number stored "
           "for every track with equal (t,d), every track represented, newest listed number never decreases, buffers/counters/storage within "
           "the window implied by tsbd, and after the catch-up the newest listed number is the last one. The thorough tier adds all 70 "
-          "interleavings of 2 tracks x 4 segments. Renumbered channels (TestC17Renumbered): decode time = (number + K) x duration, K in {1,3,1000}, "
+          "interleavings of 2 tracks x 4 segments. A quarter of the cases uploads every 2 s video segment as two chunks whose tfhd default sample durations differ. Renumbered channels (TestC17Renumbered): decode time = (number + K) x duration, K in {1,3,1000}, "
           "video + audio (+ second video) uploaded in order, audio up to 1/8 segment before or after the video grid: every listed number is stored "
           "with the listed (t,d), is one of the uploaded segments, is listed for every track, and denotes intervals less than half a segment apart "
           "on all tracks. Non-trivial = a schedule where two tracks are >= 2 segments apart, or with a gap/duplicate (renumbered: >= 2 numbers judged).",
@@ -273,7 +273,7 @@ prop("C16",
           "URL; optional generated stpp/wvtt subtitles; Streams() or per-segment URLs; with/without credentials; optional duration of 1-4 "
           "segments; testNowMS near 1e4..1.7e12; normal or slow receiver) and a history of 3-14 REST operations (step, info, delete) over the "
           "sessions. Each session has its own recording httptest receiver. After every operation the request log of every session is "
-          "judged: init segment first per representation, DASH-IF-Ingest 1.1, credentials, CMAF extension and content type, exactly one more "
+          "judged: init segment first per representation (same handler, sample entry and timescale as the init segment livesim2 serves for it), DASH-IF-Ingest 1.1, credentials, CMAF extension and content type, exactly one more "
           "media segment per representation per effective step, numbers/times consecutive from the model's live edge + 1, each body "
           "byte-identical to livesim2's own response for that segment (the last one up to the lmsg brand), duration d => d/segDur segments "
           "with lmsg on the last, nothing after delete/finish, and every API call returns. Further session kinds: deleted right after "
